@@ -143,73 +143,29 @@ Section Mirror.
   Lemma nonzero_0 : nonzero (O:=O) (ofZ 0) = false.
   Proof. unfold nonzero. rewrite (nl_eqb_00 NL). reflexivity. Qed.
 
+  Ltac dpair :=
+    match goal with
+    | |- context [match ?e with (_, _) => _ end] =>
+        lazymatch e with (_, _) => fail | _ => destruct e end
+    end.
+  Ltac rfields := cbn [s_x s_y s_z s_rx s_ry s_rz s_shape s_n1 s_n2 s_k1 s_refl s_aper s_coat
+                       rx ry rz rL rM rN ri rw ropd option_map sg mirror_ray].
+
   Lemma trace_surface_mirror_x s r :
     sym_x s -> trace_surface s (mx r) = option_map mx (trace_surface s r).
   Proof.
     intros (Hx & Hry & Hrz & Hsh).
     destruct s as [sx sy sz srx sry srz sh n1 n2 k1 rf ap co]; cbn in Hx, Hry, Hrz, Hsh; subst sx sry srz.
     destruct r as [x y z L M N i w opd].
-    unfold trace_surface, localize, globalize, mirror_ray, sg.
-    cbn [s_x s_y s_z s_rx s_ry s_rz s_shape s_n1 s_n2 s_k1 s_refl s_aper s_coat
-         rx ry rz rL rM rN ri rw ropd].
+    unfold trace_surface, localize, globalize. rfields.
     rewrite !nonzero_0. unfold k_translate.
     rewrite !(nl_neg_0 NL), !(nl_add_0 NL).
-    destruct (nonzero srx); cbn [rx ry rz rL rM rN ri rw ropd].
-    - destruct (k_rotate_x O (neg srx) (add y (neg sy)) (add z (neg sz)) M N) as [[[y1 z1] M1] N1].
-      cbn [rx ry rz rL rM rN ri rw ropd].
-      destruct sh as [|R k| | |]; try discriminate; unfold distance, normal;
-        cbn [rx ry rz rL rM rN ri rw ropd].
-      + destruct (k_plane_distance O z1 N1) as [] eqn:Et; set (t := k_plane_distance O z1 N1) in *.
-        rewrite propagate_mirror_x.
-        destruct (k_propagate O t x L y1 M1 z1 N1 k1 w i) as [[[px py] pz] pi].
-        destruct ap as [[rmax rmin]|]; cbn [rx ry rz rL rM rN ri rw ropd].
-        * rewrite (proj1 (radial_clip_mirror _ _ _ _ _)).
-          rewrite <- (nl_neg_0 NL) at 1.
-          destruct rf.
-          -- rewrite reflect_mirror_x. destruct (k_reflect O (ofZ 0) (ofZ 0) (ofZ 1) L M1 N1) as [[tx ty] tz].
-             cbn [rx ry rz rL rM rN ri rw ropd option_map].
-             destruct (k_rotate_x O srx py pz ty tz) as [[[y2 z2] M2] N2].
-             cbn. rewrite !(nl_add_0 NL). reflexivity.
-          -- rewrite refract_mirror_x. destruct (k_refract O (ofZ 0) (ofZ 0) (ofZ 1) n1 n2 L M1 N1) as [[tx ty] tz].
-             cbn [rx ry rz rL rM rN ri rw ropd option_map].
-             destruct (k_rotate_x O srx py pz ty tz) as [[[y2 z2] M2] N2].
-             cbn. rewrite !(nl_add_0 NL). reflexivity.
-        * rewrite <- (nl_neg_0 NL) at 1.
-          destruct rf.
-          -- rewrite reflect_mirror_x. destruct (k_reflect O (ofZ 0) (ofZ 0) (ofZ 1) L M1 N1) as [[tx ty] tz].
-             cbn [rx ry rz rL rM rN ri rw ropd option_map].
-             destruct (k_rotate_x O srx py pz ty tz) as [[[y2 z2] M2] N2].
-             cbn. rewrite !(nl_add_0 NL). reflexivity.
-          -- rewrite refract_mirror_x. destruct (k_refract O (ofZ 0) (ofZ 0) (ofZ 1) n1 n2 L M1 N1) as [[tx ty] tz].
-             cbn [rx ry rz rL rM rN ri rw ropd option_map].
-             destruct (k_rotate_x O srx py pz ty tz) as [[[y2 z2] M2] N2].
-             cbn. rewrite !(nl_add_0 NL). reflexivity.
-      + rewrite std_distance_mirror_x. set (t := k_std_distance O k N1 L M1 z1 x y1 R).
-        rewrite propagate_mirror_x.
-        destruct (k_propagate O t x L y1 M1 z1 N1 k1 w i) as [[[px py] pz] pi].
-        destruct ap as [[rmax rmin]|]; cbn [rx ry rz rL rM rN ri rw ropd].
-        * rewrite (proj1 (radial_clip_mirror _ _ _ _ _)). rewrite std_normal_mirror_x.
-          destruct (k_std_normal O px py R k) as [[nx ny] nz].
-          destruct rf.
-          -- rewrite reflect_mirror_x. destruct (k_reflect O nx ny nz L M1 N1) as [[tx ty] tz].
-             cbn [rx ry rz rL rM rN ri rw ropd option_map].
-             destruct (k_rotate_x O srx py pz ty tz) as [[[y2 z2] M2] N2].
-             cbn. rewrite !(nl_add_0 NL). reflexivity.
-          -- rewrite refract_mirror_x. destruct (k_refract O nx ny nz n1 n2 L M1 N1) as [[tx ty] tz].
-             cbn [rx ry rz rL rM rN ri rw ropd option_map].
-             destruct (k_rotate_x O srx py pz ty tz) as [[[y2 z2] M2] N2].
-             cbn. rewrite !(nl_add_0 NL). reflexivity.
-        * rewrite std_normal_mirror_x.
-          destruct (k_std_normal O px py R k) as [[nx ny] nz].
-          destruct rf.
-          -- rewrite reflect_mirror_x. destruct (k_reflect O nx ny nz L M1 N1) as [[tx ty] tz].
-             cbn [rx ry rz rL rM rN ri rw ropd option_map].
-             destruct (k_rotate_x O srx py pz ty tz) as [[[y2 z2] M2] N2].
-             cbn. rewrite !(nl_add_0 NL). reflexivity.
-          -- rewrite refract_mirror_x. destruct (k_refract O nx ny nz n1 n2 L M1 N1) as [[tx ty] tz].
-             cbn [rx ry rz rL rM rN ri rw ropd option_map].
-             destruct (k_rotate_x O srx py pz ty tz) as [[[y2 z2] M2] N2].
-             cbn. rewrite !(nl_add_0 NL). reflexivity.
-    - admit.
+    destruct sh as [|R k| | |]; try discriminate; unfold distance, normal;
+    destruct (nonzero srx); rfields;
+    repeat (first [ rewrite std_distance_mirror_x | rewrite propagate_mirror_x
+                  | rewrite (proj1 (radial_clip_mirror _ _ _ _ _)) | rewrite std_normal_mirror_x
+                  | rewrite reflect_mirror_x | rewrite refract_mirror_x | dpair ]; rfields).
+    all: idtac.
+    Show.
   Admitted.
 End Mirror.
